@@ -7,7 +7,7 @@ use crate::gens::{build_jitter, guard, Kind, SutFail};
 use crate::models::jitter::{bitlen, timer_facts, TimerFacts, PROBES, TT_READS, WARMUP};
 use crate::prng::Prng;
 use crate::seams::clock::ClockSpec;
-use crate::spec::{RunEnd, Scenario, Spec, Stats, Tier};
+use crate::spec::{Op, RunEnd, Scenario, Spec, Stats, Tier};
 use rand_jitter::TimerError;
 use std::sync::Arc;
 
@@ -87,8 +87,15 @@ const CLASSES: [&str; 12] = [
     "mixture", "hostile", "pow2_mean", "table_mean", "tiny",
 ];
 
-fn gen_plan(rng: &mut Prng) -> (ClockSpec, u64) {
-    let class = rng.below(CLASSES.len() as u64);
+/// `forced`: (first-delta D, shape) for the used-generator scenarios:
+///  shape 0: measured probes 0..=270 all have delta D (270 truly stuck: a verdict that must be Ok unless the
+///           stuck history of an earlier call leaks in), shape 1: deltas D, 2D, then a constant stretch so
+///           that exactly 271 probes are truly stuck (must be Err(TooManyStuck) or another true error)
+fn gen_plan(rng: &mut Prng, forced: Option<(u64, u64)>) -> (ClockSpec, u64) {
+    let mut class = rng.below(CLASSES.len() as u64);
+    if forced.is_some() {
+        class = CLASSES.iter().position(|c| *c == "stuck").unwrap() as u64;
+    }
     let mut plan = ProbePlan {
         d: Vec::new(),
         gap: (0..PROBES).map(|_| rng.range(20, 3000)).collect(),
@@ -235,6 +242,23 @@ fn gen_plan(rng: &mut Prng) -> (ClockSpec, u64) {
         }
         _ => {}
     }
+    if let Some((d, shape)) = forced {
+        let tail = |rng: &mut Prng, i: usize| d + 13 + rng.below(1000) * 2 + (i as u64 % 2) * 977;
+        if shape == 0 {
+            for i in 0..300 {
+                measured[i] = if i <= 270 { d } else { tail(rng, i) };
+            }
+        } else {
+            // D, 2D (stuck with an empty history: second difference zero), then a constant stretch
+            measured[0] = d;
+            measured[1] = 2 * d;
+            let c = d + 3;
+            for i in 2..300 {
+                // probes 3..=271 are stuck (constant delta): with probe 1 that is 270 + 1 = 271
+                measured[i] = if i <= 271 { c } else { tail(rng, i) };
+            }
+        }
+    }
     plan.d = warm;
     plan.d.extend(measured);
     let mut readings = layout(&plan);
@@ -307,15 +331,78 @@ impl Scenario for C13 {
         }
     }
     fn generate(&self, rng: &mut Prng, _tier: Tier) -> Spec {
-        let (clock, class) = gen_plan(rng);
-        Spec {
-            prop: "C13".into(),
-            variant: CLASSES[class as usize].into(),
-            kind: Some(Kind::Jitter),
-            clock: Some(clock),
-            aux: vec![class],
-            ..Default::default()
+        // one run in five: the generator is NOT fresh when test_timer is called (the verdict must be
+        // a function of the 400 probes alone): it has produced outputs, or it retries test_timer
+        let used = rng.below(10);
+        if used >= 2 {
+            let (clock, class) = gen_plan(rng, None);
+            return Spec {
+                prop: "C13".into(),
+                variant: CLASSES[class as usize].into(),
+                kind: Some(Kind::Jitter),
+                clock: Some(clock),
+                aux: vec![class, 0],
+                ..Default::default()
+            };
         }
+        let mut spec = Spec { prop: "C13".into(), kind: Some(Kind::Jitter), ..Default::default() };
+        if used == 0 {
+            // outputs first: the number of readings they consume comes from the reference model
+            spec.variant = "after_outputs".into();
+            let rounds = rng.range(1, 4) as u8;
+            spec.rounds = Some(rounds);
+            spec.ops = (0..rng.range(1, 3)).map(|_| if rng.chance(1, 2) { Op::U64 } else { Op::U32 }).collect();
+            let prefix = gen_plain_clock(rng, 120);
+            let mut m = crate::models::jitter::JitterModel::new(crate::seams::clock::ModelClock::new(std::sync::Arc::new(prefix.clone())));
+            m.set_rounds(rounds);
+            let mut ok = true;
+            for op in &spec.ops {
+                let r = match op {
+                    Op::U64 => m.next_u64(100).map(|_| ()),
+                    _ => m.next_u32(100).map(|_| ()),
+                };
+                if r.is_err() {
+                    ok = false;
+                }
+            }
+            let base = m.reads() as usize;
+            if ok && base <= prefix.readings.len() {
+                let (clock, class) = gen_plan(rng, None);
+                let mut readings = prefix.readings[..base].to_vec();
+                readings.extend(clock.readings);
+                spec.clock = Some(ClockSpec { readings, tail_key: clock.tail_key, fork_skews: vec![] });
+                spec.aux = vec![class, base as u64];
+                return spec;
+            }
+            // (stuck prefix script: fall through to a retry scenario)
+        }
+        // retry: test_timer twice on the same object; the first script is healthy and ends with a
+        // probe of delta D, the second starts its measured window with D (shape 0) or D, 2D (shape 1)
+        spec.variant = "retry".into();
+        spec.rounds = None;
+        spec.ops = vec![Op::TestTimer];
+        let d = rng.range(150, 5000) | 1;
+        let (mut first, _) = gen_plan(rng, None);
+        {
+            // healthy first script with a known last probe delta
+            let mut plan = ProbePlan {
+                d: (0..PROBES).map(|i| 300 + (i as u64 * 37) % 211 + rng.below(400)).collect(),
+                gap: (0..PROBES).map(|_| rng.range(20, 3000)).collect(),
+                start: rng.range(1, 1 << 40),
+                zero_first: vec![],
+                zero_second: vec![],
+            };
+            plan.d[PROBES - 1] = d;
+            first.readings = layout(&plan);
+        }
+        let shape = rng.below(2);
+        let (second, class) = gen_plan(rng, Some((d, shape)));
+        let mut readings = first.readings;
+        let base = readings.len();
+        readings.extend(second.readings);
+        spec.clock = Some(ClockSpec { readings, tail_key: second.tail_key, fork_skews: vec![] });
+        spec.aux = vec![class, base as u64, shape];
+        spec
     }
     /// shrinking a 1601-reading script by truncation would change its meaning; candidates
     /// only simplify the tail beyond the layout
@@ -327,7 +414,43 @@ impl Scenario for C13 {
         let clock = Arc::new(spec.clock.clone().expect("clock"));
         st.evals += 1;
         let mut g = build_jitter(clock.clone());
-        g.jitter_ref().unwrap().set_cap(TT_READS as u64 + 64);
+        let base = spec.aux.get(1).copied().unwrap_or(0);
+        if let Some(r) = spec.rounds {
+            if r > 0 {
+                g.jitter().unwrap().set_rounds(r);
+            }
+        }
+        // the generator may already have been used: outputs, or an earlier test_timer
+        for op in &spec.ops {
+            g.jitter_ref().unwrap().set_cap(base + 8);
+            let gm = g.as_mut();
+            let r = match op {
+                Op::U64 => guard(|| {
+                    gm.next_u64();
+                }),
+                Op::U32 => guard(|| {
+                    gm.next_u32();
+                }),
+                Op::TestTimer => guard(|| {
+                    let _ = gm.jitter().unwrap().test_timer();
+                }),
+                _ => Ok(()),
+            };
+            match r {
+                Ok(()) => {}
+                Err(SutFail::Panic(m)) => return sut_panic("prefix", &m),
+                Err(SutFail::ClockAbort) => return RunEnd::Discard("prefix_misaligned".into()),
+            }
+        }
+        if !spec.ops.is_empty() {
+            st.count("probe:test_timer_on_used_generator");
+        }
+        if g.jitter_ref().unwrap().reads() != base {
+            // the earlier calls did not consume what the reference procedure consumes (a C12 matter):
+            // the probes of this test_timer call cannot be located in the script
+            return RunEnd::Discard("prefix_misaligned".into());
+        }
+        g.jitter_ref().unwrap().set_cap(base + TT_READS as u64 + 64);
         let r = {
             let gm = g.as_mut();
             guard(|| gm.jitter().unwrap().test_timer())
@@ -339,8 +462,8 @@ impl Scenario for C13 {
                 return viol("C13/reads_beyond_400_probes", "test_timer", "test_timer read the timer more than 1 + 4*400 times".to_string())
             }
         };
-        let consumed = g.jitter_ref().unwrap().reads();
-        let rd = |i: u64| clock.reading(i);
+        let consumed = g.jitter_ref().unwrap().reads() - base;
+        let rd = |i: u64| clock.reading(base + i);
         let full = timer_facts(&rd, PROBES);
         st.log.u64(consumed);
         let class = spec.aux.first().copied().unwrap_or(99);
@@ -395,12 +518,12 @@ impl Scenario for C13 {
                 }
             }
         }
-        st.sim_time_ns += clock.reading(consumed.max(1) - 1).wrapping_sub(clock.reading(0)).min(1 << 62) as u128;
+        st.sim_time_ns += clock.reading(base + consumed.max(1) - 1).wrapping_sub(clock.reading(0)).min(1 << 62) as u128;
         RunEnd::Ok
     }
 
     fn rule(&self) -> String {
-        "Each run: one clock script for the 1 + 4*400 readings of test_timer, generated per target class: healthy with a drawn mean delta variation (0..40; table means 0..17; 2^k-1, 2^k, 2^k+1 up to 2^31), delta_sum placed exactly on k*300-1 / k*300 / k*300+1 (k = 1, 2, 3..70), total variation 0..700, a literal zero reading at a drawn probe (first/second reading, warm-up or measured), a zero 32-bit-truncated delta (equal readings or a multiple of 2^32), 2..5 non-increasing probes, 268..273 deltas that are multiples of 100, 265..275 stuck probes, mixtures (deltas near +-2^31, 2^32 multiples), and generic hostile scripts from the clock-fault catalogue. The oracle recomputes the six documented failure predicates from the readings actually consumed. Ok(r) is accepted iff no predicate holds on the 400 probes, all 1601 readings were consumed, 1 <= r <= 128, r*bitlen(mean) >= 128 and set_rounds(r) does not panic; Err(e) iff the predicate named by e holds on the consumed prefix. No precedence among simultaneously true conditions and no exact r is demanded. distinct_nontrivial = distinct (target class, result variant, bitlen(mean), r) signatures.".into()
+        "Each run: one clock script for the 1 + 4*400 readings of test_timer, generated per target class: healthy with a drawn mean delta variation (0..40; table means 0..17; 2^k-1, 2^k, 2^k+1 up to 2^31), delta_sum placed exactly on k*300-1 / k*300 / k*300+1 (k = 1, 2, 3..70), total variation 0..700, a literal zero reading at a drawn probe (first/second reading, warm-up or measured), a zero 32-bit-truncated delta (equal readings or a multiple of 2^32), 2..5 non-increasing probes, 268..273 deltas that are multiples of 100, 265..275 stuck probes, mixtures (deltas near +-2^31, 2^32 multiples), and generic hostile scripts from the clock-fault catalogue. In one run out of five the generator is not fresh when test_timer is called: it has produced 1..3 outputs first (the readings they consume are located with the reference model), or test_timer is called a second time on the same object, the second script starting its measured window with the last probe delta D of the first (270 truly stuck probes: must be Ok) or with D, 2D and a constant stretch (271 truly stuck probes: must be Err) - the verdict must be a function of the 400 probes alone. The oracle recomputes the six documented failure predicates from the readings actually consumed. Ok(r) is accepted iff no predicate holds on the 400 probes, all 1601 readings were consumed, 1 <= r <= 128, r*bitlen(mean) >= 128 and set_rounds(r) does not panic; Err(e) iff the predicate named by e holds on the consumed prefix. No precedence among simultaneously true conditions and no exact r is demanded. distinct_nontrivial = distinct (target class, result variant, bitlen(mean), r) signatures.".into()
     }
     fn assumptions(&self) -> Vec<String> {
         vec![
@@ -421,6 +544,7 @@ impl Scenario for C13 {
             "probe:err_NotMonotonic",
             "probe:err_TinyVariations",
             "probe:err_TooManyStuck",
+            "probe:test_timer_on_used_generator",
         ]
     }
 }
